@@ -160,6 +160,12 @@ def catalogue(base: str, fmt: int) -> list[list]:
             for dt in (",", "i4,,", "01i4", "l", "=i4", "|u1", "U0", "i 4", "Int8"):
                 faults.append(["md_prop_set", which, nm, "dtype", dt])
             faults.append(["md_axis_on", nm])
+            # a metadata entry for a property that is NOT a member of the props group but whose name, read as a zarr PATH below the
+            # group, reaches something that exists (a member of a real property group, the group itself): membership must be decided
+            # on the member names, not by path lookup
+            for ghost in (nm + "/values", nm + "/", "/" + nm, nm + "/missing", nm + "/data"):
+                faults.append(["md_ghost_named", which, ghost])
+        faults.append(["md_ghost_named", which, "/"])
     return faults
 
 
@@ -218,6 +224,8 @@ def apply_fault(st, fault: list) -> None:
             md.pop(fault[1], None)
         elif kind == "md_ghost":
             md[f"{fault[1]}_props_metadata"]["ghost"] = {"identifier": "ghost", "dtype": "int8"}
+        elif kind == "md_ghost_named":
+            md[fault[1]][fault[2]] = {"identifier": fault[2], "dtype": "int8"}
         elif kind == "md_prop_del":
             md[fault[1]].pop(fault[2], None)
         elif kind == "md_prop_set":
